@@ -48,7 +48,7 @@ theorem runAction_spec (env : Env) (it j : Bool) (es : ES) (a : Action) :
     simp only [List.mem_singleton] at ho
     subst ho
     exact ⟨rfl, rfl, Or.inr (Or.inl rfl), by simp, by simp⟩
-  | spawn tag sleep join => exact ⟨[], by simp [runAction]⟩
+  | spawn tag sleep join loc => exact ⟨[], by simp [runAction]⟩
   | shutdown =>
     refine ⟨[⟨env.mi, .dwn, none, none, env.now⟩], rfl, ?_, by simp [runAction, isDwn], by simp [runAction, isPan]⟩
     intro o ho
@@ -129,22 +129,26 @@ theorem runTasks_spec (env : Env) (prog : Prog) (ts : List Task) : ∀ (es : ES)
     unfold runTasks
     let es1 : ES := { es with obs := es.obs ++ [(⟨env.mi, .task, some t.tag, none, env.now⟩ : Obs)] }
     obtain ⟨l1, h1, h2, h3, h4⟩ := runActions_spec env true t.join (prog.onTask t.tag) es1
-    obtain ⟨l2, g1, g2, g3, g4⟩ := ih (runActions env true t.join (prog.onTask t.tag) es1).1
+    let es2 : ES := { (runActions env true t.join (prog.onTask t.tag) es1).1 with
+      spawned := demote es.spawned.length t.loc (runActions env true t.join (prog.onTask t.tag) es1).1.spawned }
+    have e2o : es2.obs = (runActions env true t.join (prog.onTask t.tag) es1).1.obs := rfl
+    have e2r : es2.req = (runActions env true t.join (prog.onTask t.tag) es1).1.req := rfl
+    obtain ⟨l2, g1, g2, g3, g4⟩ := ih es2
     refine ⟨[(⟨env.mi, .task, some t.tag, none, env.now⟩ : Obs)] ++ l1 ++ l2, ?_, ?_, ?_, ?_⟩
-    · show (runTasks env prog rest (runActions env true t.join (prog.onTask t.tag) es1).1).1.obs = _
-      rw [g1, h1]; simp [es1]
+    · show (runTasks env prog rest es2).1.obs = _
+      rw [g1, e2o, h1]; simp [es1]
     · intro o ho
       simp only [List.append_assoc, List.mem_append, List.mem_singleton] at ho
       rcases ho with ho | ho | ho
       · subst ho; exact Or.inl ⟨rfl, rfl, rfl⟩
       · exact Or.inr ⟨t.join, h2 o ho⟩
       · exact g2 o ho
-    · show (runTasks env prog rest (runActions env true t.join (prog.onTask t.tag) es1).1).1.req.isSome = _
-      rw [g3, h3]
+    · show (runTasks env prog rest es2).1.req.isSome = _
+      rw [g3, e2r, h3]
       have : (OKind.task == OKind.dwn) = false := by decide
       simp [es1, List.any_append, isDwn, Bool.or_assoc, this]
     · show _ = (if (runActions env true t.join (prog.onTask t.tag) es1).2 && t.join then 1 else 0) +
-        (runTasks env prog rest (runActions env true t.join (prog.onTask t.tag) es1).1).2
+        (runTasks env prog rest es2).2
       rw [← g4]
       simp only [List.countP_append, List.append_assoc]
       have hj : l1.countP isJoinPan = if (runActions env true t.join (prog.onTask t.tag) es1).2 && t.join then 1 else 0 := by
@@ -247,7 +251,7 @@ theorem exec_spec (env : Env) (m : ModRt) (entry : Obs) (acts : List Action) (es
     · simp [countP_joinPan_act a2]
   · have hp' : (runActions env false false acts { es with obs := es.obs ++ [entry] }).2 = false := by simpa using hp
     simp only [hp', Bool.false_eq_true, if_false]
-    obtain ⟨lt, t1, t2, t3, t4⟩ := runTasks_spec env m.prog m.ready
+    obtain ⟨lt, t1, t2, t3, t4⟩ := runTasks_spec env m.prog (localsFirst (·.loc) m.ready)
       (runActions env false false acts { es with obs := es.obs ++ [entry] }).1
     refine ⟨la ++ lt, ⟨?_, ?_, rfl, ?_, ?_, ?_, rfl, rfl, rfl, rfl⟩⟩
     · simp [t1, a1]
@@ -261,7 +265,7 @@ theorem exec_spec (env : Env) (m : ModRt) (entry : Obs) (acts : List Action) (es
 
 theorem execIdle_spec (env : Env) (m : ModRt) (es : ES) :
     ∃ l, ExecSpec env m es (execIdle env m es) [] l := by
-  obtain ⟨lt, t1, t2, t3, t4⟩ := runTasks_spec env m.prog m.ready es
+  obtain ⟨lt, t1, t2, t3, t4⟩ := runTasks_spec env m.prog (localsFirst (·.loc) m.ready) es
   unfold execIdle
   refine ⟨lt, ⟨by simp [t1], fun o ho => (t2 o ho).gen, rfl, by simpa using t3, ?_, ?_, rfl, rfl, rfl, rfl⟩⟩
   · rw [countP_cbPan_task t2]; simp
